@@ -63,6 +63,7 @@ CLAIMED = {
          "exploration", "Random (context, subexpression) pairs whose trees differ only at the hole; the context evaluated with the bracketed subexpression and with its value as placeholder must agree bit for bit.",
          "no oracle; pairs where the hole changes implicit-product eligibility are excluded as the statement says", "§5 C20"),
 }
+FUZZ = ["C01","C02","C03","C04","C05","C06","C07","C08","C09","C10","C12","C13","C14","C20"]
 PENDING_REASON = "check not built yet in this round (planned: DESIGN.md §5)"
 props=[json.loads(l)["id"] for l in open("/verif/properties.jsonl")]
 hooks_commit = subprocess.run(["git","-C","/repo","log","--format=%H","--grep=verif hooks"],capture_output=True,text=True).stdout.split()
@@ -78,7 +79,8 @@ m = {
  },
  "engines": [
    {"name":"scv","path":"harness/","serves_properties":sorted(CLAIMED),"kind_free_text":"Rust harness: recording boundary around the public API, reference-model / metamorphic / invariant-hook monitors, worker processes with abort and hang pinning"},
-   {"name":"stages","path":"stages.py","serves_properties":["C01","C16","C17"],"kind_free_text":"side stages: Miri, AddressSanitizer, ThreadSanitizer, valgrind memcheck over the scv_san workload; 31 feature-subset builds of harness/probes"}
+   {"name":"stages","path":"stages.py","serves_properties":sorted(set(["C01","C02","C16","C17"]+FUZZ)),"kind_free_text":"side stages: Miri, AddressSanitizer, ThreadSanitizer, valgrind memcheck over the scv_san workload; cachegrind instruction counts (C02); 31 feature-subset builds of harness/probes (C17); driver of the coverage-guided stage"},
+   {"name":"omni","path":"harness/fuzz/","serves_properties":FUZZ,"kind_free_text":"libFuzzer target (cargo-fuzz, offline): coverage-guided input generation feeding each property's ordinary monitor in the thorough tier; candidates are re-judged by the regular checked and release binaries before they count"}
  ],
  "checks": [],
  "not_applicable": [],
@@ -87,6 +89,9 @@ m = {
 for p in props:
     if p in CLAIMED:
         tech, cat, text, note, ref = CLAIMED[p]
+        if p in FUZZ:
+            text += " The thorough tier adds a coverage-guided workload (libFuzzer choosing inputs under coverage feedback from the library and the reference parser) judged by the same monitor."
+            tech += " + coverage-guided workload (libFuzzer) in the thorough tier"
         m["checks"].append({
           "property_id": p,
           "quick_cmd": f"./check {p} --tier quick",
